@@ -21,41 +21,33 @@ Proof. exact lockset_sound. Qed.
 
 (* ---------------------------------------------------------------- the code as it is *)
 
-(* the registries whose unlocked path (GoType.GetConverter -> getTypeConverter -> new*Converter ->
-   createTypeConverter / newGoType, without goTypeMutex) is the known finding *)
-Definition known_bad_names : list string :=
-  ["object.typeConverters"; "object.goTypeRegistry"; "object.GoType.converter"]%string.
-
-Definition known_bad (st : site) : bool :=
-  existsb (String.eqb (nth (s_loc st) gen_loc_names ""%string)) known_bad_names.
-
-Definition guarded_sites : list site := filter (fun st => negb (known_bad st)) gen_sites.
-
-(* every other piece of package-level mutable state obeys the discipline (kernel computation over
-   the generated site list) *)
-Theorem C09_guarded_sites_ok : all_pairs_ok guarded_sites = true.
+(* every pair of access sites of the package-level mutable state (and of the lazily filled fields of shared
+   objects) that the translator found in the current source is excluded by a lock: kernel computation over the
+   regenerated site list *)
+Theorem C09_sites_ok : all_pairs_ok gen_sites = true.
 Proof. vm_compute. reflexivity. Qed.
 
-(* ... hence evaluations that stay on those sites do not race, whatever they are and however scheduled *)
-Theorem C09_guarded : forall (progs : list (list event)),
-  Forall (fun p => conformsb guarded_sites [] p = true) progs ->
+(* ... hence evaluations - any number of them, whatever they run, however scheduled - whose accesses happen
+   at those sites with at least those locks held never race *)
+Theorem C09_no_race : forall (progs : list (list event)),
+  Forall (fun p => conformsb gen_sites [] p = true) progs ->
   forall (sched : list nat) (s : list thread), run (init progs) sched = Some s -> ~ race s.
-Proof. exact (fun progs => lockset_sound guarded_sites progs C09_guarded_sites_ok). Qed.
+Proof. exact (fun progs => lockset_sound gen_sites progs C09_sites_ok). Qed.
 
-(* the whole list: either it obeys the discipline, or its first bad pair yields a checked two-thread
-   program that conforms to the generated sites and reaches a race (decided by computation, so the
-   theorem survives a repair of the tree) *)
+(* the decision procedure behind it: a site list either obeys the discipline, or its first bad pair yields a
+   checked two-thread program that conforms to the list and reaches a race (what the check reports when a
+   change of the tree breaks C09_sites_ok) *)
 Theorem C09_refuted_or_full_check : refuted_or_ok gen_sites = true.
 Proof. vm_compute. reflexivity. Qed.
 
-Theorem C09_refuted_or_full :
-  (all_pairs_ok gen_sites = true /\
-   forall progs, Forall (fun p => conformsb gen_sites [] p = true) progs ->
+Theorem C09_refuted_or_full : forall (sites : list site), refuted_or_ok sites = true ->
+  (all_pairs_ok sites = true /\
+   forall progs, Forall (fun p => conformsb sites [] p = true) progs ->
      forall sched s, run (init progs) sched = Some s -> ~ race s) \/
-  (all_pairs_ok gen_sites = false /\
-   exists progs sched s, Forall (fun p => conformsb gen_sites [] p = true) progs /\
+  (all_pairs_ok sites = false /\
+   exists progs sched s, Forall (fun p => conformsb sites [] p = true) progs /\
                          run (init progs) sched = Some s /\ race s).
-Proof. exact (refuted_or_ok_meaning gen_sites C09_refuted_or_full_check). Qed.
+Proof. exact refuted_or_ok_meaning. Qed.
 
 (* ---------------------------------------------------------------- compiled code is read-only at run time *)
 
